@@ -6,7 +6,7 @@
 From Coq Require Import String ZArith List Bool.
 Import ListNotations.
 From Verif Require Import Base.PyValue Base.Decimal Model.Eval Model.Order Model.Exec Model.Typing
-     Proofs.AggProofs Proofs.TypingProofs.
+     Model.TypingCasts Proofs.AggProofs Proofs.TypingProofs Proofs.TypingCastsProofs.
 From Verif Require Proofs.RegistryTie.
 Open Scope Z_scope.
 
@@ -119,6 +119,17 @@ Theorem C04_eval_cast_sound : forall cols aggs castf r st e t,
   has_type (eval_c cols aggs castf r st e) t = true /\ (forall k, eval_c cols aggs castf r st e <> VErr k).
 Proof. intros cols aggs castf r st e t CC Hr Hst. exact (eval_c_sound cols aggs castf r st CC Hr Hst e t). Qed.
 Print Assumptions C04_eval_cast_sound.
+
+(* C18's models of the cast functions (date_, str_, bool_, int_) meet that contract; decimal_ does on every
+   non-str argument (Decimal(str) may be Infinity/NaN, a Decimal outside Base.PyValue) *)
+Theorem C04_cast_functions_contract : forall tg v,
+  (forall k, v <> VErr k) -> (tg = TDate \/ tg = TStr \/ tg = TBool \/ tg = TInt) -> has_type (castf18 tg v) tg = true.
+Proof. exact castf18_contract. Qed.
+Print Assumptions C04_cast_functions_contract.
+Theorem C04_cast_decimal_contract : forall v,
+  (forall k, v <> VErr k) -> (forall s, v <> VStr s) -> has_type (castf18 TDec v) TDec = true.
+Proof. exact castf18_decimal_nonstr. Qed.
+Print Assumptions C04_cast_decimal_contract.
 
 (* on trees without an object-against-typed binary operator nothing changes: same dtype, same value as Eval.eval *)
 Theorem C04_cast_conservative : forall cols aggs castf r st e t,
